@@ -94,3 +94,6 @@ META = {
              "(addr-workchain-int8). Trusted: Coq kernel, extraction, drivers, Go harness, C06 refinement of bit strings."),
     'technique': 'Coq: verified insertion sort + Patricia-tree representation theorem + label codec inversion; cell-exact extracted-model correspondence; translator obligations on key-type widths',
 }
+
+# ROUND-8-APPEND-2
+PROP['rule'] += " Round 8 (c05_r8.go, genC05R8): dictionaries that are DAGs - valid Hashmap / HashmapE / HashmapAug / HashmapAugE trees over 13 key widths whose sibling or cousin subtrees are equal (mirrored keys with equal values under 1..3 levels of empty-label forks, also zero-key-bit leaves), built as a tree, as a hand-made DAG with one *boc.Cell referenced at several positions (incl. as both children of one fork) and through ToBoc/DeserializeBoc. The tree form goes through c05.decode / c05.aug / c05.count against the Coq model; on every build the decoder of the kind must give the generator's mapping (Keys/Values/Items; Values for HashmapAug), a second decode of the same objects must agree, and countLeafs / hashmapAugExtraCountLeafs / BlockExtra.In/OutMsgDescrLength must count the entries (keys dag-decode-<kind>, dag-decode-again-<kind>, dag-leaf-count, dag-panic-<kind>). Catches decoders that depend on cell-object identity or on NextRef's cursor reset order."
